@@ -9,10 +9,11 @@ SMALL_TEMPLATES = [
     {"kind": "int", "lo": 0, "hi": 6}, {"kind": "int", "lo": -1, "hi": 0},
     {"kind": "int", "lo": 298, "hi": 301}, {"kind": "int", "lo": -1001, "hi": -1000},   # outside the small-int cache
 ]
+EMPTY_DOMAIN = {"kind": "int", "lo": 3, "hi": 1, "empty": True}      # declared bounds with nothing inside: no assignment exists
 
 
 def _dom(v):
-    return 2 if v["kind"] == "bool" else v["hi"] - v["lo"] + 1
+    return 2 if v["kind"] == "bool" else max(1, v["hi"] - v["lo"] + 1)
 
 
 def random_session(rng, profile="small", solve_calls=("find_answer",), max_product=300):
@@ -25,7 +26,9 @@ def random_session(rng, profile="small", solve_calls=("find_answer",), max_produ
             v = {"kind": "int", "lo": -40, "hi": 40, "wide": True}
         else:
             v = dict(rng.choice(SMALL_TEMPLATES))
-        if rng.random() < 0.2:      # one bool_array / int_array call (1-D or 2-D, possibly empty) instead of a single variable
+        if profile == "small" and rng.random() < 0.03 and decl:
+            v = dict(EMPTY_DOMAIN)
+        if not v.get("empty") and rng.random() < 0.2:      # one bool_array / int_array call (1-D or 2-D, possibly empty) instead of a single variable
             shape = rng.choice([[0], [1], [2], [3], [1, 2], [2, 1], [2, 2], [0, 2]])
             n = shape[0] if len(shape) == 1 else shape[0] * shape[1]
             if product * _dom(v) ** n > max_product or len(decl) + n > 6:
